@@ -143,6 +143,8 @@ impl<'a, I: VecIndex, T: VecValue, V: ReadableVec<I, T> + ?Sized> Cursor<'a, I, 
 
         // Refill aligned to chunk boundary to avoid cross-page decompression.
         self.buf.clear();
+        #[cfg(anydb_verif)]
+        rawdb::verif_tap::pause("cursor-refill");
         let aligned = (at / self.chunk_size) * self.chunk_size;
         let end = (aligned + self.chunk_size).min(self.len);
         self.buf_start = aligned;
